@@ -24,10 +24,10 @@ REQUIRED = ["C17.QuatRotate", "C17.QuatLength", "C17.QuatCompose", "C17.QuatAxis
             "C17.RotationToNear"] + REAL_LAWS
 
 PARAMS = {
-    "quick": dict(group_depth=4, mat_depth=2, mat_ks="{1}", mat_bound=4, mat_sim=8, mat_sim_depth=8, wordlen=2,
-                  box_depth=3, real_n=150),
-    "thorough": dict(group_depth=6, mat_depth=3, mat_ks="{1, 2}", mat_bound=6, mat_sim=150, mat_sim_depth=10, wordlen=3,
-                     box_depth=4, real_n=3000),
+    "quick": dict(group_depth=4, mat_depth=2, mat_ks="{1}", mat_bound=4, mat_stride=3, mat_sim=8, mat_sim_depth=8,
+                  wordlen=2, box_depth=3, real_n=150),
+    "thorough": dict(group_depth=6, mat_depth=3, mat_ks="{1}", mat_bound=6, mat_stride=2, mat_sim=200, mat_sim_depth=12,
+                     wordlen=3, box_depth=5, real_n=8000),
 }
 
 
@@ -86,8 +86,10 @@ def collect_cases(ctx):
     r = _tlc(ctx, "mat", "AlgebraMat", consts, ["DetTracked", "InverseOK", "DetLaws", "Emit"], view="View")
     notes["mat_states"] = r.distinct
     states = [v["cases"] for v in r.values if isinstance(v, dict) and "cases" in v]
-    if ctx.tier == "quick":        # a seed-dependent third of the enumerated matrices (all of them in the thorough tier)
-        states = states[:40] + states[40 + ctx.seed % 3::3]
+    # every enumerated matrix is checked by TLC against the laws of AlgebraMat; a seed-dependent 1/stride of
+    # them (and the first 40) is executed on the real code
+    k = P["mat_stride"]
+    states = states[:40] + states[40 + ctx.seed % k::k]
     notes["mat_states_executed"] = len(states)
     mats = [c for st in states for c in st]
     consts = {"Depth": P["mat_sim_depth"], "Bound": 8, "Ks": "{1, 2}"}
@@ -269,10 +271,25 @@ def run_family(ctx, prefix="C17"):
     missing = [p for p in REQUIRED if stats.get(p, 0) == 0]
     if missing:
         raise core.Infra("vacuous: predicates never exercised: %s" % missing)
-    pc_false = 0
+    # generator coverage (anti-vacuity): every action of the walks was taken
+    pc_false, dets, boxops = 0, {}, {}
     for ln in raw:
         if ln.startswith('{"k":"boxreal"'):
             pc_false += sum(1 for b in json.loads(ln)["pc"] if not b)
+        elif ln.startswith('{"k":"mat1"'):
+            dv = json.loads(ln)["det"]
+            dets[dv] = dets.get(dv, 0) + 1
+        elif ln.startswith('{"k":"box'):
+            o = json.loads(ln)
+            boxops[o["op"]] = boxops.get(o["op"], 0) + 1
+    ctx.extra["determinants_seen"] = {str(k): dets[k] for k in sorted(dets)}
+    ctx.extra["box_calls"] = boxops
+    need_dets = [1, -1, 2, -2, 4, -4] if ctx.tier == "thorough" else [1, -1, 2, -2]
+    if any(dv not in dets for dv in need_dets) or not any(dv not in (1, -1, 2, -2, 4, -4) for dv in dets):
+        raise core.Infra("vacuous: matrix walk did not reach the determinants %s plus a general one (saw %s)" %
+                         (need_dets, sorted(dets)))
+    if any(boxops.get(op, 0) == 0 for op in ("New", "Empty", "FromPoints", "Point", "Bounds")):
+        raise core.Infra("vacuous: box machine calls %s" % boxops)
     ctx.extra["real_boxes_encapsulated_point_not_Contained_bitwise"] = pc_false
     ctx.rule = ("cases: every edge of the cube rotation group graph (TLC BFS), every matrix of the row-operation "
                 "walk to the depth bound + random walks (x unary/binary operations), all 256 basis-matrix pairs, "
